@@ -13,6 +13,8 @@ package c13zone
 //	Q3  a.<zone> A        the same question again, inside the back-off
 //	Q4  a.<zone> AAAA     the same name, another type, never asked before
 //	Q5  a.<other> A       a name in another zone, never asked before
+//	Q6  a.<zone> A, CD=1  (when Q1 failed) the same question under the other CD value
+//	Q7  c.<zone> A        (when Q1 failed) one more sibling, never asked before
 //
 // The oracle is the scripted servers' own record (which attempt reached which
 // server, what the script made it answer, when the answer left) and the
@@ -29,6 +31,10 @@ package c13zone
 //	QuestionFailed   Q3 answered from the failure cache without upstream packets
 //	                 is legal only if an earlier reply for that very question was
 //	                 a failure, or the zone legally failed as above.
+//	ExactCD          Q6 answered from the failure cache without upstream packets is
+//	                 legal only if a ZONE failure is being served (then Q7, a name
+//	                 nobody asked before, is answered the same way): Q1..Q5 all
+//	                 carried CD = 0, so no question failure exists for CD = 1.
 //	OtherZone        Q5 is never answered from the failure cache.
 //	KillSwitch       with rfc9520 off nothing is ever answered SERVFAIL + EDE 13.
 //
@@ -163,6 +169,13 @@ func (p *player) hook(j int) func(*authkit.Exchange) {
 			m.Authoritative = true
 			m.Ns = ex.Zone.RRset(ex.Zone.Name, dns.TypeSOA)
 			ex.Resp = m
+		case "badref":
+			// NOERROR, no answer, the zone's own NS set in the authority section: a referral that does not progress
+			// (configErrors in Resolver.lookup; if nothing better comes back the resolution ends in errParentDetection)
+			m := new(dns.Msg)
+			m.SetReply(ex.Req)
+			m.Ns = ex.Zone.RRset(ex.Zone.Name, dns.TypeNS)
+			ex.Resp = m
 		case "servfail", "refused", "formerr":
 			m := new(dns.Msg)
 			m.SetRcode(ex.Req, map[string]int{"servfail": dns.RcodeServerFailure, "refused": dns.RcodeRefused, "formerr": dns.RcodeFormatError}[beh])
@@ -291,17 +304,19 @@ type rep struct {
 	Ans    int    `json:"answers"`
 	Ms     int64  `json:"ms"`
 	Epoch  int    `json:"epoch"`
+	CD     bool   `json:"cd,omitempty"`
 	rcode  int
 }
 
-func (w *world) ask(name string, qt uint16, wire bool, client string) rep {
+func (w *world) ask(name string, qt uint16, wire bool, client string, cd ...bool) rep {
 	q := new(dns.Msg)
 	q.SetQuestion(name, qt)
 	q.RecursionDesired = true
+	q.CheckingDisabled = len(cd) > 0 && cd[0]
 	q.SetEdns0(1232, false)
 	t0 := time.Now()
 	var m *dns.Msg
-	out := rep{Name: name, Type: dns.TypeToString[qt], Born: "msg", EDE: -1, rcode: -1}
+	out := rep{Name: name, Type: dns.TypeToString[qt], Born: "msg", EDE: -1, rcode: -1, CD: q.CheckingDisabled}
 	if wire {
 		out.Born = "wire"
 		m = pipe.AskRaw(w.srv, q, "udp", client)
@@ -341,6 +356,11 @@ type caseObs struct {
 	Zone    string       `json:"zone"`
 	Replies []rep        `json:"replies"`
 	Epochs  []epochTruth `json:"epochs"`
+	// the CD = 1 follow-up and the sibling asked after it (only when Q1 failed)
+	CDReply  *rep        `json:"cdReply,omitempty"`
+	CDEpoch  *epochTruth `json:"cdEpoch,omitempty"`
+	SibReply *rep        `json:"sibReply,omitempty"`
+	SibEpoch *epochTruth `json:"sibEpoch,omitempty"`
 	Flags   []flag       `json:"flags,omitempty"`
 	Starved bool         `json:"starved"`
 	Infra   string       `json:"infra,omitempty"`
@@ -444,7 +464,31 @@ func (w *world) runCase(c zCase, tag string) caseObs {
 		obs.Infra = "no reply to the other-zone question"
 		return obs
 	}
+	// "exactly that CD value": the same question with CD = 1, then a sibling nobody asked before (which tells whether
+	// a ZONE failure is what the cache is serving)
+	var e6, e7 int
+	if failureRcode(obs.Replies[0].rcode) {
+		e6 = zs.begin("a."+zone, dns.TypeA)
+		r6 := w.ask("a."+zone, dns.TypeA, false, client, true)
+		r6.Epoch = e6
+		obs.CDReply = &r6
+		e7 = zs.begin("c."+zone, dns.TypeA)
+		r7 := w.ask("c."+zone, dns.TypeA, false, client)
+		r7.Epoch = e7
+		obs.SibReply = &r7
+		zs.begin("-", 0)
+		if !r6.Got || !r7.Got {
+			obs.Infra = "no reply to the CD follow-up"
+			return obs
+		}
+	}
 	zs.settle(3 * time.Second)
+	if obs.CDReply != nil {
+		t6 := zs.truth(e6, "a."+zone+" A cd=1")
+		t7 := zs.truth(e7, "c."+zone+" A")
+		obs.CDEpoch, obs.SibEpoch = &t6, &t7
+		obs.Starved = obs.Starved || t6.Starved || t7.Starved
+	}
 	for i, e := range epochs {
 		t := zs.truth(e, steps[i].name+" "+dns.TypeToString[steps[i].qt])
 		obs.Epochs = append(obs.Epochs, t)
@@ -515,6 +559,14 @@ func (o *caseObs) judge(enabled bool) {
 			"reaching the zone's servers, i.e. a ZONE failure is being served, although not every server of the zone failed: %s (first reply: %s)",
 			o.Zone, vec, what, r.Name, r.Type, why, o.Replies[0].Rcode)
 	}
+	// Q1 .. Q5 carried CD = 0: a CD = 1 client can only be answered from the failure cache by a ZONE failure, and a zone
+	// failure also answers the sibling asked right after it
+	if o.CDReply != nil && o.CDReply.Cached && o.CDEpoch.Packets == 0 && !(o.SibReply.Cached && o.SibEpoch.Packets == 0) {
+		add("ExactCD", "zone %s served by %s: %s A asked with CD=1 was answered SERVFAIL/EDE 13 from the failure cache without upstream traffic, although only CD=0 "+
+			"clients ever asked (and failed) that question and no zone failure is being served (the sibling %s, never asked before, was answered %s after %d packet(s) "+
+			"reached the zone's servers): the CD=0 client's failure (first reply %s, ede %d) is applied to the CD value that never failed",
+			o.Zone, vec, o.CDReply.Name, o.SibReply.Name, o.SibReply.Rcode, o.SibEpoch.Packets, o.Replies[0].Rcode, o.Replies[0].EDE)
+	}
 	if r := o.Replies[4]; r.Cached {
 		add("OtherZone", "zone %s served by %s failed; %s %s in ANOTHER zone, never asked before and served by a healthy server, was answered SERVFAIL/EDE 13 from the failure cache",
 			o.Zone, vec, r.Name, r.Type)
@@ -530,7 +582,7 @@ func final(sc []string, once bool) bool {
 		switch {
 		case useful(b):
 			return true
-		case b == "servfail" || b == "refused" || once:
+		case b == "servfail" || b == "refused" || b == "badref" || once:
 			return false
 		case b == "formerr":
 			if !e {
@@ -772,6 +824,15 @@ func account(res *vh.Result, o *caseObs, kind string) {
 			res.Count("q1_failed_although_healthy", 1)
 			res.DriftNote("case %s %s: server(s) %v healthy, yet the client was answered SERVFAIL (ede %d) after %d ms", o.Case.ID,
 				vecString(o.Case.Script), e1.Healthy, r1.EDE, r1.Ms)
+		}
+	}
+	if o.CDReply != nil {
+		res.Count("cd_followups", 1)
+		switch {
+		case o.CDReply.Cached && o.CDEpoch.Packets == 0 && o.SibReply.Cached && o.SibEpoch.Packets == 0:
+			res.Count("cd_zone_failure_covers_both", 1) // a zone failure is not partitioned by CD
+		case o.CDEpoch.Packets > 0 && o.Replies[2].Cached && o.Epochs[2].Packets == 0:
+			res.Count("cd_partition_seen", 1) // the CD=0 question failure was served to CD=0 and not to CD=1
 		}
 	}
 	if canFail, canAnswer := modelVerdicts(o.Case.Script); (failed && !canFail) || (!failed && !canAnswer) {
